@@ -338,6 +338,16 @@ func (d *EntitlementMappingDeclaration) Doc(ctx PrettyContext) prettier.Doc {
 		)
 	}
 
+	if len(elementsDocs) == 0 {
+		// NOTE: prettier.Join returns nil for no elements
+		return ctx.Wrap(d, prettier.Concat{
+			prettier.Group{Doc: headerDoc},
+			prettier.Space,
+			mappingStartDoc,
+			mappingEndDoc,
+		})
+	}
+
 	return ctx.Wrap(d, prettier.Concat{
 		prettier.Group{Doc: headerDoc},
 		prettier.Space,
